@@ -145,6 +145,11 @@ def build(cfg, values=None):
                 assumptions = assumptions + ctx.atoms.additivity_constraints()
             return obs, assumptions, {'values': {k: str(v) for k, v in ctx.used_values.items()}, 'stats': {k: v.stats.as_dict() for k, v in ctx.kernels.mods.items()}}
         else:
+            if cfg.get('after_offset_redefinition'):
+                # the stiffness was evaluated with another reference surface before: kM follows the CURRENT offset
+                p.offset = ctx.V('d_before')
+                p.calc_k0(silent=True)
+                p.offset = d
             K = p.calc_kM(silent=True).todict()
         Hp = symmetric_completion(oracle_kM(ctx, p, model, d, ylim=yl, s=s), shift=off)       # property: e = +offset
         Hm = symmetric_completion(oracle_kM(ctx, p, model, -d, ylim=yl, s=s), shift=off)      # same magnitude, other sign
@@ -171,6 +176,8 @@ def configs(tier, seed):
                 continue
             out.append({'model': model, 'm': m, 'n': n, 'variant': 'full', 'group': 'kM:%s' % model})
         out.append({'model': model, 'm': 2, 'n': 2, 'variant': 'y1y2', 'group': 'kMy1y2:%s' % model})
+        if model != 'kpanel':
+            out.append({'model': model, 'm': 2, 'n': 1, 'variant': 'full', 'after_offset_redefinition': True, 'group': 'kM-after-offset-redefinition:%s' % model})
         # four terms along one direction: all four boundary flags (1t, 1r, 2t, 2r) of that direction enter the integrals
         out.append({'model': model, 'm': 1, 'n': 4, 'variant': 'y1y2', 'group': 'kMy1y2:%s' % model, 's': 1 if model == 'kpanel' else 2})
         out.append({'model': model, 'm': 4, 'n': 1, 'variant': 'y1y2', 'group': 'kMy1y2:%s' % model, 's': 1 if model == 'kpanel' else 2})
